@@ -481,15 +481,16 @@ Proof.
   intros H Hin Hx He.
   pose proof (build_message_ok_fields _ _ _ _ _ _ H) as F. rewrite Forall_forall in F.
   destruct (F f Hin) as (x & Hv).
-  apply build_message_ok_inv in H. destruct H as [(E & _)|(_ & l & Hl & Em)]; [rewrite E in Hin; destruct Hin|].
+  apply build_message_ok_inv in H. destruct H as (l & Hl & Hc).
   pose proof (build_field_list_incl _ _ _ _ _ _ _ _ _ Hl Hin Hv) as I.
   rewrite He in Hv.
   assert (Hne : embedded_view cfg (view_of_field f) = false).
   { unfold embedded_view. cbn [view_of_field v_embed]. rewrite He. apply andb_false_r. }
   destruct (build_view_not_embedded _ _ _ _ _ _ _ _ _ _ Hv Hx Hne) as (i & om & -> & S).
   exists i, om. split; [|split; [exact S|exact (build_view_kind_spec _ _ _ _ _ _ _ _ _ _ _ Hv Hx Hne)]].
-  rewrite Em. assert (In (Field i om) l) by (apply I; now left).
-  destruct (o_sort cfg); [now apply FrontEndProofs.sort_by_perm_in|assumption].
+  assert (Hil : In (Field i om) l) by (apply I; now left).
+  destruct Hc as [(E & _)|(_ & Em & _)]; [subst l; destruct Hil|].
+  rewrite Em. destruct (o_sort cfg); [now apply FrontEndProofs.sort_by_perm_in|assumption].
 Qed.
 Print Assumptions declared_field_kind_in_message.
 
